@@ -611,7 +611,7 @@ static void run_base(const fc_desc* d, unsigned di, uint64_t seed, const sk_mask
 				if (keepn + C.outs[i].n <= sizeof(keep))
 					memcpy(keep + keepn, C.outs[i].p, C.outs[i].n), keepn += C.outs[i].n;
 			digest_outs(out, rc[0]);
-			sk_text(out, "call %s (variant %d): rc=%u, %d outputs, %ld allocations; repeated with different heap garbage",
+			sk_text(out, "call %s (variant %d): rc=%u, %d outputs, %ld allocations; repeated with different heap and stack garbage, then with the stale image of this call",
 				d->name, C.variant, (unsigned)rc[0], C.nouts, sk_heap_allocs());
 		}
 		else
